@@ -1818,6 +1818,22 @@ namespace jsoncons {
                             }
                     }
                     break;
+                case json_storage_kind::half_float:
+                    switch (rhs.storage_kind())
+                    {
+                        case json_storage_kind::half_float:
+                        {
+                            auto r = binary::decode_half(cast<half_storage>().value()) - binary::decode_half(rhs.cast<half_storage>().value());
+                            return r == 0 ? 0 : (r < 0.0 ? -1 : 1);
+                        }
+                        case json_storage_kind::const_json_ref:
+                            return compare(rhs.cast<const_json_ref_storage>().value());
+                        case json_storage_kind::json_ref:
+                            return compare(rhs.cast<json_ref_storage>().value());
+                        default:
+                            return static_cast<int>(storage_kind()) - static_cast<int>(rhs.storage_kind());
+                    }
+                    break;
                 case json_storage_kind::short_str:
                 case json_storage_kind::long_str:
                     if (is_number_tag(tag()))
